@@ -94,13 +94,20 @@ func (purityStream) Generate(rng *rand.Rand, tier string, emit func(Case)) {
 			}
 			if rng.Intn(2) == 0 {
 				nd := &specs.DeviceNode{Path: fmt.Sprintf("/dev/node%d", d), Type: "c", Major: int64(10 + d), Minor: 0}
+				if rng.Intn(3) == 0 {
+					// several devices of the Spec bring the same node, each with its own access rights
+					nd.Path, nd.Major = "/dev/shared", 9
+					nd.Permissions = []string{"rw", "r", "m", "rwm"}[(d+rng.Intn(2))%4]
+				}
 				switch rng.Intn(4) {
 				case 0:
 					nd.UID = u32p(7)
 				case 1:
 					nd.GID = u32p(8)
 				case 2:
-					nd.Permissions = "rw"
+					if nd.Permissions == "" {
+						nd.Permissions = "rw"
+					}
 				}
 				if rng.Intn(2) == 0 {
 					m := []os.FileMode{0o660, 0o20660, 0o100644, os.ModeCharDevice | 0o600, 0o7777}[rng.Intn(5)]
